@@ -53,7 +53,7 @@ func TestSurvey(t *testing.T) {
 		c := g(rt)
 		src := c.Source()
 		v := thePool.exec(c, src)
-		hist[c.Class+" "+c.Entry+" "+v.status+" "+v.res.Phase]++
+		hist[c.Class+" "+c.Entry+" "+v.status+" "+v.res.Phase+" "+v.why]++
 		if v.res.Msg != "" {
 			m := v.res.Msg
 			if i := strings.Index(m, ", "); i > 0 {
